@@ -91,6 +91,9 @@ fn main() {
     let scale: f64 = arg(&args, "--scale").map(|s| s.parse().unwrap()).unwrap_or(1.0);
 
     let prop = props::find(&prop_id).expect("unknown property");
+    if tier == Tier::Miri {
+        vp_harness::gen::SMALL_SIZES.store(true, std::sync::atomic::Ordering::Relaxed);
+    }
     monitor::panic::install_silent_hook();
 
     let journal = journal_path.map(|p| std::fs::OpenOptions::new().create(true).write(true).truncate(true).open(p).expect("journal"));
@@ -139,6 +142,7 @@ fn main() {
         std::process::exit(0);
     }
 
+    let trace = std::env::var("VP_TRACE").is_ok();
     let mut corpus_cache = None;
     // the interpreter tier samples each stream's full (quick-tier) index space pseudo-randomly
     // instead of walking its first few indices
@@ -180,11 +184,19 @@ fn main() {
             {
                 let mut pr = Rng::for_case(seed ^ 0xfa17, prop.num, sno as u32, eff);
                 if pr.chance(1, 16) {
+                    let t_p = Instant::now();
                     vp_harness::exec::provoke_failures(&mut pr);
                     ctx.rep.bucket("provoked_failures_before_case");
+                    if trace {
+                        eprintln!("VP_TRACE provoke-before {} {} {:.3}s", sd.name, eff, t_p.elapsed().as_secs_f64());
+                    }
                 }
             }
+            let t_case = Instant::now();
             (prop.run)(&mut ctx);
+            if trace {
+                eprintln!("VP_TRACE {} {} {:.3}s", sd.name, eff, t_case.elapsed().as_secs_f64());
+            }
             corpus_cache = ctx.corpus.take();
             done += 1;
             idx += sn;
